@@ -4,13 +4,34 @@ import Pyrtma.Proofs.ValidatorsFloat
 /-!
 # C09 — field validation is sound, complete and atomic
 
-Theorems about `Model/Validators.lean` (`setField` = a descriptor's `__set__` / `__setitem__` followed by the ctypes
-store, which writes sequence elements one by one and may stop half way).  All statements are for **every** field
-type, width, array length, key (index, any slice shape, whole field), pre-existing content and right-hand side.
+Theorems about M4: `Model/Validators.lean` (`setField` = a descriptor's `__set__` / `__setitem__` followed by the ctypes
+store, which writes sequence elements one by one and may stop half way) and `Model/ValidatorsExt.lean` (`readField` =
+`__get__` / `__getitem__`; `setAt` = the assignment seen from the whole message buffer; `Stmt` / `execList` = programs of
+nested `with disable_message_validation(ignore)` blocks, `try/except`, `raise`, views bound at any point).  All statements
+are for **every** field type, width, array length, key (index, any slice shape, whole field), pre-existing content and
+right-hand side.
 
-Floating point: `roundMag` (the rounding done by the C cast / `PyLong_AsDouble`) is `opaque`, so everything below
-holds for an arbitrary rounding function; that ctypes rounds to nearest-even and overflows exactly at the IEEE
-threshold is checked on every generated case (bit patterns against ctypes, `isNearestMag`/`overflowsMag` of the Spec).
+| clause of the property | theorems |
+|---|---|
+| refused ⇒ every byte unchanged | `refused_atomic` (field), `refused_leaves_message_unchanged` (whole object), `…_kth_bad_all_or_nothing` (k-th element after any prefix; int / float / byte / struct arrays) |
+| out-of-domain ⇒ refused, wherever it stands | `int_/float_/byte_/struct_array_bad_element_refused`, `int_field_out_of_range_refused`, `float_inf_refused`, `float_wrong_type_refused`, `float32_overflow_refused(_anywhere)`, `float_huge_int_refused` |
+| accepted ⇒ in the domain ∧ stored ∧ read back | `accepted_sound` (every descriptor; per kind: `int_/byte_/char_/str_/struct_/float_field_accepted_sound`, `array_field_accepted_sound`), `accepted_sound_nonfloat` (no assumption), `accepted_sound_under_rounding_hypotheses`, `model_meets_spec_accepted` |
+| `get (set x v) = canon v` | `spec_readback_is_canon` (from the Spec alone: holds for any observation, model or implementation), `accepted_readback_canon`, `int_field_readback_exact`, `str_field_sound`, `double_field_exact` |
+| nothing else is touched | `accepted_touches_only_the_field`, `unselected_elements_untouched` |
+| validation in force outside disable blocks | `switch_restored`, `switch_on_after_any_program`, `outside_blocks_validated`, `outside_blocks_meet_spec`, `inside_blocks_not_validated`, `log_threads_message` (programs); `validation_restored`, `off_only_inside_disable_block`, `exception_exit_restores`, `switch_spec_holds_on_every_history` (flat event histories) |
+
+Hypotheses that appear: `tyWF` / `valWF` (Spec/ValidatorsExt.lean: facts about Python objects the abstract values do not
+carry - a `bytes` consists of bytes, a ctypes / struct instance has the size of its class, a double has 64 bits, `String(n)`
+has `n > 1`, an array descriptor class goes with its kind of element validator); the field holds `ty.size` bytes.
+
+Floating point: `roundMag` (the rounding done by the C cast / `PyLong_AsDouble`) is `opaque`.  Everything about integer,
+byte, char, string and struct kinds is proved without any assumption.  For the float kinds the soundness theorems take
+`FloatOK` (three facts), which `Proofs/ValidatorsFloat.lean` derives from the named hypotheses `RoundHyp` (a finite result is
+a nearest pattern, ties to even; a value at or beyond the IEEE overflow threshold is not rounded to a finite pattern;
+float32 values and integers up to 2^53 are fixed by rounding to double; a big integer still finite after
+int → double → float was below the float32 threshold).  **These hypotheses are trusted, not proved**; the driver evaluates
+each of them at the operands of every generated float case, and compares the bit patterns with ctypes.
+`PARTIAL`: that is the only gap - no theorem here says that the C compiler's cast satisfies `RoundHyp`.
 -/
 namespace Pyrtma.C09
 open Pyrtma.Validators
